@@ -11,10 +11,10 @@ use crate::refm::sml::{encode_canonical, AFile, AMsg, ABody, AClose};
 use sml_rs::parser::{complete, streaming};
 
 /// heap bound for the allocating parser: requested bytes <= PER_BYTE * |x| + SLACK.
-/// An honest parser needs ~22 bytes of heap per input byte incl. Vec doubling (size_of::<Message>() = 128 for >= 20 wire
+/// An honest parser needs ~22 bytes of heap per input byte incl. Vec doubling; the additive 1 MiB leaves room for a fixed-size pre-allocation that does not depend on the input at all (size_of::<Message>() = 128 for >= 20 wire
 /// bytes, size_of::<ListEntry>() = 88 for >= 8 wire bytes); 256x is an order of magnitude of slack.
 pub const PER_BYTE: u64 = 256;
-pub const SLACK: u64 = 64 * 1024;
+pub const SLACK: u64 = 1024 * 1024;
 
 pub struct Total {
     pub x: Vec<u8>,
@@ -256,5 +256,5 @@ pub const FLOORS: &[&str] = &["floor:huge-declared-length", "floor:big-honest-in
 
 pub const RULE: &str = "cases = byte strings: TLF substitutions with declared lengths 2^8, 2^16-1, 2^16, 2^24, 2^31, 2^32-3 .. 2^32+10, 2^36, 2^44-1 (8..12 byte TLFs) and length +-1 / other type codes at EVERY TLF position of valid files \
 (list, string and integer TLFs; stale and recomputed checksum), truncations of list responses at every entry boundary, all corruption families of C04, uniform random bytes, and honest big inputs (10^4 messages, 10^5 list entries) that show the bound is not vacuous. \
-Monitor: tracking global allocator read around complete::parse (requested bytes <= 256*|x| + 64 KiB) and around the whole streaming iteration (0 requests); every case is journalled first and run in a worker subprocess so that an allocation abort or a hang is attributed to its input; \
+Monitor: tracking global allocator read around complete::parse (requested bytes <= 256*|x| + 1 MiB) and around the whole streaming iteration (0 requests); every case is journalled first and run in a worker subprocess so that an allocation abort or a hang is attributed to its input; \
 builds with overflow checks + debug assertions and plain release. Distinct/non-trivial = distinct (input family, outcome of the allocating parser, streaming error yes/no) tuples";
